@@ -173,7 +173,8 @@ class RefEnum:
 # iterator model: a list with two cursors (double-ended, exact-size, fused)
 
 FINISHERS = ["collect", "rev", "fold", "rfold", "last", "count", "len", "foreach", "revfold",
-             "skiplast", "stepby2"]
+             "skiplast", "stepby2", "rposition"]
+PARAM_FINISHERS = ["takerev", "skiprev"]     # adaptor chains whose next_back relies on len() / nth_back()
 
 
 def run_iter_model(items, ops, show):
@@ -241,6 +242,12 @@ def run_iter_model(items, ops, show):
                 out.append(opt(xs[-1]) if len(xs) > 1 else "N")
             elif op == "stepby2":
                 out.append(lst(xs[::2]))
+            elif op == "rposition":
+                out.append("P%d" % (len(xs) - 1) if xs else "PN")
+            elif op.startswith("takerev:"):
+                out.append(lst(xs[:int(op[8:])][::-1]))
+            elif op.startswith("skiprev:"):
+                out.append(lst(xs[int(op[8:]):][::-1]))
             else:
                 raise ValueError(op)
     return " ".join(out)
